@@ -266,7 +266,7 @@ CHECKS = {
     },
     "C16": {
         "level": "exploration",
-        "rule": "(sequential) rapid-generated operation sequences on the real LRU cache (capacity 0-10; put with sizes 0 / small / cap/2 / cap / cap+1 and unsizeable values, replacement with another size, get, delete, LoadAndDelete, the three range iterations with early stop, poisoning a resident value so that its Size() fails) compared after every operation with a slice-based reference LRU on Len, Size, residency, recency and iteration order, results and evicted flags; a failed operation must leave the cache usable (the next operation returns). (interleavings) a generated warm-up plus 2-3 concurrent operations whose every interleaving at the yield points around the index accesses is enumerated depth-first by a scheduler; each schedule's results and final state must equal those of some sequential order on the reference LRU. Non-trivial = (sequential) the sequence made the cache evict at least once; (interleavings) two concurrent operations touch the same key or an eviction happens in some order; distinct = distinct case JSON",
+        "rule": "(sequential) rapid-generated operation sequences on the real LRU cache (capacity 0-10; put with sizes 0 / small / cap/2 / cap / cap+1 and unsizeable values, replacement with another size, get, delete, LoadAndDelete, the three range iterations with early stop, poisoning a resident value so that its Size() fails) compared after every operation with a slice-based reference LRU on Len, Size, residency, recency and iteration order, results and evicted flags; a failed operation must leave the cache usable (the next operation returns). (interleavings) a generated warm-up plus 2-3 concurrent operations whose every interleaving at the yield points around the index accesses is enumerated depth-first by a scheduler; each schedule's results and final state must equal those of some sequential order on the reference LRU. Non-trivial = (sequential) the sequence made the cache evict at least once; (interleavings) two concurrent operations touch the same key or an eviction happens in some order; distinct = distinct case JSON Unit stress: 2-6 free-running goroutines execute generated operation lists (put / get / LoadAndDelete / Delete / Range / RangeFILO) on one cache; afterwards the cache must be one consistent map within its capacity, every value a lookup returned must have been stored under that key, nobody hangs or panics (and, as part of C18, the race detector must stay silent).",
         "assumptions": [
             "where an operation needs the size of a poisoned resident value every consistent outcome is accepted and adopted as the new model state",
             "interleavings are enumerated at the granularity of the verif-tag yield points (after the index lookup, before/after the list section) of Put, Get and LoadAndDelete, for 2-3 operations",
@@ -278,14 +278,17 @@ CHECKS = {
             {"name": "interleavings", "module": "harness-cache", "pkg": "./c16", "test": "TestC16Conc", "tags": "verif",
              "quick": {"checks": 150, "shards": 8, "timeout": 600},
              "thorough": {"checks": 3000, "shards": 8, "timeout": 3600, "shrink": "60s"}},
+            {"name": "stress", "module": "harness-cache", "pkg": "./c16", "test": "TestC16Stress", "tags": "verif",
+             "quick": {"checks": 400, "shards": 8, "timeout": 600},
+             "thorough": {"checks": 20000, "shards": 16, "timeout": 3600, "shrink": "30s"}},
         ],
     },
 }
 
 def _race_units():
     """C18: the race detector as oracle over reduced budgets of the other checks' generated executions."""
-    want = {"C01": (6, 20), "C03": (5, 16), "C04": (4, 14), "C05": (5, 16), "C06": (5, 16), "C09": (200, 4000),
-            "C10": (40, 200), "C11": (300, 6000), "C12": (200, 4000), "C15": (300, 6000), "C17": (4, 14), "C19": (6, 20)}
+    want = {"C01": (6, 20), "C02": (5, 16), "C03": (5, 16), "C04": (4, 14), "C05": (5, 16), "C06": (5, 16), "C09": (200, 4000),
+            "C10": (40, 200), "C11": (300, 6000), "C12": (200, 4000), "C13": (4, 14), "C15": (300, 6000), "C16": (300, 6000), "C17": (4, 14), "C19": (6, 20)}
     units = []
     for pid, (q, th) in want.items():
         if pid not in CHECKS:
@@ -295,6 +298,10 @@ def _race_units():
                 continue
             if u["name"] == "bm-sched" and pid != "C03":
                 continue  # same scenarios as C03's unit
+            if pid == "C13" and u["name"] != "enforce":
+                continue  # single-threaded state machine / fuzz target
+            if pid == "C16" and u["name"] != "stress":
+                continue  # those units order every access through the harness
             if u["name"] in ("verdict", "enforce"):
                 q, th = 4, 14  # network simulations: slow under the detector
             r = dict(u)
@@ -311,7 +318,7 @@ def _race_units():
 CHECKS["C18"] = {
     "level": "exploration",
     "detect_race": True,
-    "rule": "the test binaries of the C01, C03, C04, C05, C06, C09, C10, C11, C12, C15, C17 and C19 checks are rebuilt with -race and a reduced budget of their rapid-generated executions is run (GOMAXPROCS 8, several shards); the oracle is the Go race detector: any report with a frame in neutrino code is a violation, a report between harness frames only is a harness error. evaluations = executions run under the detector; non-trivial = executions the underlying check classifies as non-trivial (the harness-scheduled block manager interleavings of C03's bm-sched unit are included; every network-simulation execution runs the block handler, the filter-header handler, the peer handlers, the query dispatcher and the harness callers concurrently); distinct = distinct case JSON per unit",
+    "rule": "the test binaries of the C01, C02, C03, C04, C05, C06, C09, C10, C11, C12, C13 (enforcement unit), C15, C16 (free-running stress unit), C17 and C19 checks are rebuilt with -race and a reduced budget of their rapid-generated executions is run (GOMAXPROCS 8, several shards); the oracle is the Go race detector: any report with a frame in neutrino code is a violation, a report between harness frames only is a harness error. evaluations = executions run under the detector; non-trivial = executions the underlying check classifies as non-trivial (the harness-scheduled block manager interleavings of C03's bm-sched unit are included; every network-simulation execution runs the block handler, the filter-header handler, the peer handlers, the query dispatcher and the harness callers concurrently); distinct = distinct case JSON per unit",
     "assumptions": [
         "the detector only sees races that occur in an explored execution",
         "property violations reported by the underlying checks are ignored here (they belong to those properties)",
